@@ -143,6 +143,10 @@ def plan_through_manager(kind, size, t, c, src='path', adj=None, plan_only=False
                         fileobj = os.path.join(scratch.path, 'src')
                         with open(fileobj, 'wb') as fh:
                             fh.write(harness.payload(size))
+                elif src.startswith('seekable+'):
+                    # a seekable stream positioned past its start: the object is what follows the position
+                    off = int(src.split('+')[1])
+                    fileobj = SourceStream(s, harness.payload(size + off), seekable=True, start=off)
                 else:
                     fileobj = SourceStream(s, harness.payload(size), seekable=(src == 'seekable'))
                 f = m.upload(fileobj, 'bkt', 'dst')
@@ -400,7 +404,7 @@ def run(tier, seed):
     for kind, src in (('download', None), ('copy', None), ('upload', 'path')):
         for chunk in range(0, len(list(sizes)), 5):
             jobs.append((kind, src, list(sizes)[chunk:chunk + 5], list(ts), list(cs)))
-    for src in ('seekable', 'nonseekable'):
+    for src in ('seekable', 'nonseekable', 'seekable+3', 'seekable+1'):
         for chunk in range(0, 17, 4):
             jobs.append(('upload', src, list(range(0, 17))[chunk:chunk + 4], list(ts), list(cs)))
     res = explore.run_jobs(_sweep_job, jobs)
